@@ -69,11 +69,12 @@ def run(chk, cfgname, pid="C13", want=None):
             if v == "reader_heap_intr":
                 # a heap limit that just suffices and an Interrupted read after the first bytes: the search either goes on
                 # (retry) or returns the error after a prefix of the results; it must not end quietly with less
-                if i % 4 != vlib.seed() % 4 or r["scn"]["stopAt"] or r["scn"]["errAt"] or len(r["scn"]["inp"]) < 3:
+                if i % 3 != vlib.seed() % 3 or r["scn"]["stopAt"] or r["scn"]["errAt"] or len(r["scn"]["inp"]) < 4:
                     continue
                 j = to_job(r, strat, extra)
                 j["heap_limit"] = len(j["scn"]["inp"]) + 4
-                j["scn"] = dict(j["scn"], faultAt=2 + i % 2, faultKind="intr")
+                # (read calls 1-2 are the 3-byte peek for a byte-order mark with 2-byte reads; 3 and 4 fill the buffer)
+                j["scn"] = dict(j["scn"], faultAt=3 + (i // 3) % 2, faultKind="intr")
                 jobs.append(j)
                 meta.append((i, v))
                 continue
